@@ -61,7 +61,7 @@ def run(ctx):
             raise vlib.ToolError("replay executed %d operations for %d transitions" % (len(ev) - 1, len(paths)))
         ctx.distinct += len(ev) - 1
         ctx.cov["samples"] += [ev[min(len(ev) - 1, 7)]]
-        if base == "MC_Roles_cap" and not any(e["err"] == "ExceedMaxLengthLimit" for e in ev):
+        if base == "MC_Roles_cap" and not fails and not any(e["err"] == "ExceedMaxLengthLimit" for e in ev):
             raise vlib.ToolError("vacuity: the capacity limits were never hit in the capacity configuration")
         for f in fails[:100]:      # the first failures are enough to decide and to replay
             ctx.report(classify(ev[f["i"] - 1], f["mon"]),
@@ -73,9 +73,9 @@ def run(ctx):
     fails, drifts, _ = ctx.validate_trace("Trace_Roles", tr, timeout=2400, heap="6g")
     ev = vlib.read_ndjson(tr)
     caps = {e["err"] for e in ev}
-    if "ExceedMaxLengthLimit" not in caps:
+    if not fails and "ExceedMaxLengthLimit" not in caps:
         raise vlib.ToolError("vacuity: random histories never reached the 32-role / 64-member capacity")
-    if not any(e["obs"]["restarted"] for e in ev):
+    if not any(e["op"] == "restart" for e in ev):
         raise vlib.ToolError("vacuity: no pending cluster restart in the random histories")
     ctx.distinct += len({(e["op"], e["a"], e["r"], e["ok"], e["err"], e["obs"]["nroles"], e["obs"]["nmembers"]) for e in ev})
     ctx.cov["samples"] += [ev[len(ev) // 2]]
